@@ -615,11 +615,24 @@ def waits(V, **params):
     return c04.waits(V, **params)
 
 
-FUNCS = {"pair": pair, "waits": waits}
+def shram_writes(V, **params):
+    """waits precede the operation they guard: the wait analysis only sees the SHRAM bytes a kernel operation DECLARES to write; they must
+    cover what its block configuration's layout really uses, e.g. the last two banks on the 16-bank parts (harness/c04.py shram_writes)"""
+    from harness import c04
+
+    return c04.shram_writes(V, **params)
+
+
+FUNCS = {"pair": pair, "waits": waits, "shram_writes": shram_writes}
 
 
 def instances(tier, seed):
     out = []
+    from harness import c04
+
+    for inst in c04.instances(tier, seed):
+        if inst["fn"] == "shram_writes":
+            out.append(dict(key=inst["key"], fn="shram_writes", params=inst["params"]))
     conv_groups = ["ifm_addr", "ofm_addr", "weights", "biases", "tiles", "zp", "pad", "region", "activation", "kernel", "ifm_prec", "ofm_prec", "shape",
                    "ifm_strides", "ofm_strides", "act_kind"]
     for accel in ("Ethos_U55_128", "Ethos_U65_512"):
